@@ -7,7 +7,7 @@ import streams as S
 ID = "C01"
 MODULE = "JmesVerif.Props.C01Full"      # imports Props.C01 and re-prints its axioms
 THEOREMS = ["C01_conformance", "C01_conformance_safe", "C01_search", "C01_unconditional_false", "C01_translated_truthy_type",
-            "C01_conformance_full", "C01_conformance_full_safe", "C01_conformance_full_rt", "C01_search_full", "C01_search_full_safe", "SemFull_extends_Sem", "SemFull_covers_core", "SemFull_covered_disciplined", "SemFull_expref_positions"]
+            "C01_conformance_full", "C01_conformance_full_safe", "C01_conformance_full_rt", "C01_search_full", "C01_search_full_safe", "SemFull_extends_Sem", "SemFull_covers_core", "SemFull_covered_disciplined", "SemFull_expref_positions", "C01_translated_interpreter"]
 TRUSTED_BASE = [
     "Lean 4.33 kernel; axioms propext, Classical.choice, Quot.sound only",
     "hand-written models Model/Interp.lean (interpreter.rs), Model/Value.lean, Model/Slice.lean, Model/Compare.lean and the parser models, "
